@@ -1,6 +1,7 @@
 package props
 
 import (
+	"fmt"
 	"go/token"
 
 	"golang.org/x/tools/go/ssa"
@@ -65,6 +66,125 @@ func C01offset(p *load.Program, run *report.Run) {
 		} else {
 			run.OK("O1-offset-permute-bit", key, p.Rel(set.Pos()), "SetS(true) dominates every read of r")
 		}
+		inputWireOrigin(p, run, fn, key, cell)
 	}
 	run.Floor("offset-sites", 2)
+	run.Floor("input-wire-stores", 2)
+}
+
+// inputWireOrigin (base case of the induction behind O2–O4): every wire the
+// constructor itself places into the wire storage is the first result of
+// makeLabels(rand, r) — the helper proved by O2 to return {fresh, fresh^r} — drawn
+// in the same loop iteration as the store, with r the offset cell of O1.
+func inputWireOrigin(p *load.Program, run *report.Run, fn *ssa.Function, key string, cell ssa.Value) {
+	rule := "O2-input-wires-from-makeLabels"
+	mk, err := p.Func("circuit", "makeLabels")
+	if err != nil {
+		run.Undecided(rule, key, "", err.Error())
+		return
+	}
+	isWire := func(v ssa.Value) bool { return typeName(v.Type()) == "Wire" && isWireType(v.Type()) }
+	// is v a load of the offset: *cell, or *(&obj.f) where obj.f was stored from *cell
+	var isOffset func(v ssa.Value, depth int) bool
+	isOffset = func(v ssa.Value, depth int) bool {
+		u, ok := v.(*ssa.UnOp)
+		if !ok || u.Op != token.MUL || depth > 3 {
+			return false
+		}
+		if u.X == cell {
+			return true
+		}
+		fa, ok := u.X.(*ssa.FieldAddr)
+		if !ok {
+			return false
+		}
+		for _, b := range fn.Blocks {
+			for _, ins := range b.Instrs {
+				if st, ok := ins.(*ssa.Store); ok {
+					if fa2, ok := st.Addr.(*ssa.FieldAddr); ok && fa2.X == fa.X && fa2.Field == fa.Field && isOffset(st.Val, depth+1) {
+						return true
+					}
+				}
+			}
+		}
+		return false
+	}
+	check := func(v ssa.Value, at ssa.Instruction) {
+		run.Count("input-wire-stores", 1)
+		pos := p.Rel(at.Pos())
+		ex, ok := v.(*ssa.Extract)
+		if !ok || ex.Index != 0 {
+			run.Violate(rule, key, pos, "a wire placed into the wire storage is not the result of makeLabels: that it is {fresh, fresh^r} is not established", nil)
+			return
+		}
+		call, ok := ex.Tuple.(*ssa.Call)
+		if !ok || call.Call.StaticCallee() != mk {
+			run.Violate(rule, key, pos, "a wire placed into the wire storage is not the result of makeLabels: that it is {fresh, fresh^r} is not established", nil)
+			return
+		}
+		if len(call.Call.Args) != 2 || !isOffset(call.Call.Args[1], 0) {
+			run.Violate(rule, key, pos, "makeLabels is not given the offset whose permute bit O1 establishes", nil)
+			return
+		}
+		// drawn per wire: the call is in the loop of the store
+		if !sameLoops(call.Block(), at.Block()) {
+			run.Violate(rule, key, pos, "the labels are not drawn in the loop iteration that stores them (one draw serves several wires)", nil)
+			return
+		}
+		run.OK(rule, key, pos, "makeLabels(rand, r) per stored wire")
+	}
+	for _, b := range fn.Blocks {
+		for _, ins := range b.Instrs {
+			switch t := ins.(type) {
+			case *ssa.Store:
+				if isWire(t.Val) {
+					check(t.Val, t)
+				}
+			case *ssa.Call:
+				if cal := t.Call.StaticCallee(); cal != nil && load.InModule(cal) && cal != mk {
+					for _, a := range t.Call.Args {
+						if isWire(a) {
+							check(a, t)
+						}
+					}
+				}
+			}
+		}
+	}
+}
+
+// sameLoops: the two blocks lie in the same set of natural loops.
+func sameLoops(a, b *ssa.BasicBlock) bool {
+	return loopSet(a) == loopSet(b)
+}
+
+func loopSet(b *ssa.BasicBlock) string {
+	fn := b.Parent()
+	out := ""
+	for _, h := range fn.Blocks {
+		in := false
+		for _, pr := range h.Preds {
+			if !h.Dominates(pr) {
+				continue
+			}
+			body := map[*ssa.BasicBlock]bool{h: true}
+			stack := []*ssa.BasicBlock{pr}
+			for len(stack) > 0 {
+				x := stack[len(stack)-1]
+				stack = stack[:len(stack)-1]
+				if body[x] {
+					continue
+				}
+				body[x] = true
+				stack = append(stack, x.Preds...)
+			}
+			if body[b] {
+				in = true
+			}
+		}
+		if in {
+			out += fmt.Sprintf("L%d ", h.Index)
+		}
+	}
+	return out
 }
